@@ -18,6 +18,7 @@ ADD = {
     "C06": " The catalogue includes explicit dtype= requests in method and function spellings and histogram2d / histogramdd with coordinates in different units sharing one edge array.",
     "C07": " The catalogue includes histogram2d / histogramdd with the two coordinates in different units of one dimension and shared or per-axis edge arrays in either unit, and explicit dtype= requests (single-precision requests judged under the bit-exact assignments only).",
     "C09": " The temperature pool includes offset scales (degC, degF, mdegC, kdegC) as input, target and intermediate, judged with the exact affine maps.",
+    "C11": " A cross-process part pickles in one interpreter and loads in a fresh one (writer and reader are separate subprocesses running the same script): trigonometry after the non-angle factor is divided away, temperature / logarithmic guards, roots of squares agree with the originals.",
     "C13": " Unit objects (exported ones, units of another registry) passed to constructors together with registry= (validated and bypass_validation forms) must keep their owner; define_unit into a registry created without default symbols must land there and nowhere else.",
     "C17": " Deterministic grids: conversion routes between units whose scales are stored as NumPy scalars keep the width for float16/float32/complex64/int16/int32 and agree between copy and in-place; complex data in mixed units (9 unit pairs x 2 widths x 10 forms) against exact complex arithmetic.",
     "C18": " Both operands tracked with the second written in another commensurable unit: ~50 copying binary forms (non-mutation, independent result memory), 14 in-place forms against their copying twins, 12 store forms (item assignment, fill, put, copyto, putmask, place) against value.to(target unit).",
